@@ -189,8 +189,14 @@ func init() {
 				c.Fail("mismatch", probe.e.Name, site, fmt.Sprintf("pristine state vs after history (residue=%s, %d history steps, zone cache %v): %s", harness.ResNames[res], nh, zc, detail))
 				return
 			}
-			// immutability of the returned objects
+			// immutability of the returned objects, and of the caller's own reader: a bufio.Reader
+			// the harness handed in still belongs to the harness after the call returned
 			snap := got.Recanon()
+			brSnap := ""
+			if got.Br != nil {
+				pk, _ := got.Br.Peek(minInt(got.Br.Buffered(), 64))
+				brSnap = fmt.Sprintf("%d:%x", got.Br.Buffered(), pk)
+			}
 			for _, l := range later {
 				budget(l)
 				l.run(c, Delivery{})
@@ -198,6 +204,13 @@ func init() {
 			harness.SetResidue(harness.ResFF, 1)
 			if after := got.Recanon(); after != snap {
 				c.Fail("mismatch", probe.e.Name, "result-mutated", "a returned result changed after later calls / after the pools were overwritten")
+			}
+			if got.Br != nil {
+				pk, _ := got.Br.Peek(minInt(got.Br.Buffered(), 64))
+				if now := fmt.Sprintf("%d:%x", got.Br.Buffered(), pk); now != brSnap {
+					c.Fail("mismatch", probe.e.Name, "caller-reader-mutated", "the bufio.Reader the caller passed in was changed by later calls on other readers")
+				}
+				c.Inc("probe:caller-reader-immutability-checked")
 			}
 			c.Inc("probe:immutability-checked")
 			harness.Pristine()
